@@ -37,6 +37,8 @@ def corpus():
         "run prop=C05 mode=constant rate=5/100ms dist=none dur=3000 conc=5 maxit=5 block=1 timeout=300",    # D27: limit reached while an iteration never returns
         "run prop=C05 mode=users dur=3000 conc=3 maxit=6 block=2 timeout=300",
         "run prop=C05 mode=file dur=3000 conc=3 maxit=4 file=u:1000:3;c:500:1/100ms block=2 timeout=300 retmax=2000",
+        "run prop=C05 mode=file dur=3000 conc=3 maxit=4 file=u:3000:3 block=2 timeout=300 retmax=1800",       # the limit reached in a users stage that has 3 s to go
+        "run prop=C05 mode=file dur=4000 conc=2 maxit=3 file=c:200:1/100ms;u:3500:2 block=1 timeout=300 retmax=2200",
         "run prop=C05 mode=file dur=4000 conc=3 file=c:300:2/100ms block=1 timeout=300 retmax=2200",          # stages over before the duration
         "run prop=C05 mode=constant rate=5/100ms dur=10 conc=4 body=1",
         "run prop=C05 mode=staged stages=0s:3,300ms:3 freq=100 dist=none dur=5000 conc=4 body=10 retmax=3500",
